@@ -116,6 +116,10 @@ def check(ctx) -> None:
             if is_name(strip_norm(core), "trough_wells"):
                 empty_ok = True
                 recognised.add(n.id)
+        # `if not wells` on the list of flattened wells: a list is falsy exactly when it is empty
+        if isinstance(core, ast.Call) and not is_sym(core) and call_fname(core) in ("list", "tuple") and core.args and not p and cls == "ValueError" and is_name(strip_norm(core), "trough_wells"):
+            empty_ok = True
+            recognised.add(n.id)
     # nothing else is turned away: any n >= 0 and any non-empty collection of wells is a valid request
     for n, test, pol, r in all_guards:
         if n.id in recognised:
@@ -135,6 +139,31 @@ def check(ctx) -> None:
     val = fv.res.resolve(rn.ast.value, rn.id)
     ok_shape = isinstance(val, ast.Subscript) and isinstance(val.slice, ast.Slice) and val.slice.lower is None and val.slice.step is None and is_name(val.slice.upper, "n") \
         and isinstance(val.value, ast.BinOp) and isinstance(val.value.op, ast.Mult)
+    if not ok_shape and isinstance(val, ast.BinOp) and isinstance(val.op, ast.Add) and isinstance(val.left, ast.BinOp) and isinstance(val.left.op, ast.Mult) and isinstance(val.right, ast.Subscript) \
+            and isinstance(val.right.slice, ast.Slice) and val.right.slice.lower is None and val.right.slice.step is None:
+        # L * q + L[:r]  with  q, r = divmod(n, len(L)):  q whole cycles followed by the first r wells
+        Lq = [x for x in (val.left.left, val.left.right) if key(x) == key(val.right.value)]
+        qs = [x for x in (val.left.left, val.left.right) if key(x) != key(val.right.value)]
+        r_ = val.right.slice.upper
+        okd = False
+        if len(Lq) == 1 and len(qs) == 1 and is_sym(qs[0], "unpack") and is_sym(r_, "unpack") and key(qs[0].args[0]) == key(r_.args[0]) and qs[0].args[1].value == 0 and r_.args[1].value == 1:
+            dm = qs[0].args[0]
+            okd = isinstance(dm, ast.Call) and call_fname(dm) == "divmod" and len(dm.args) == 2 and is_name(dm.args[0], "n") and call_fname(dm.args[1]) == "len" and dm.args[1].args \
+                and key(dm.args[1].args[0]) == key(Lq[0])
+        if okd:
+            L = Lq[0]
+            chains = norm_chains(L)
+            fl = [(nm, c) for ch in chains for nm, c in ch if nm in ("flatten", "ravel")]
+            orders = [flatten_order(nm, c) for nm, c in fl]
+            extra = seq_transformers(L)
+            ctx.rep.check(is_name(strip_norm(L), "trough_wells") and not extra, "C19.cycle", f"{f.qualname}/wells", "the cycled list is exactly the given wells",
+                          f"the cycled list is `{show(L)[:80]}`: the given wells are transformed ({extra or 'different origin'}) before cycling", where=w)
+            ctx.rep.check(bool(fl) and all(o == "F" for o in orders), "C19.cycle", f"{f.qualname}/column-major", "the wells are read column-major ('F')",
+                          f"the wells are flattened with order {orders or 'none'}: a 2-D collection is not read column-major", where=w)
+            islist = any(nm in ("list", "tolist") for ch in chains for nm, c in ch)
+            ctx.rep.check(islist, "C19.cycle", f"{f.qualname}/list-repeat", "L is a Python list (so L * k repeats instead of multiplying)", "the flattened wells are not converted to a list before `* k`", where=w)
+            ctx.rep.holds("C19.cycle", f"{f.qualname}/repeat-count", "L * (n // len(L)) + L[:n % len(L)] has exactly n elements, element i is L[i % len(L)]", where=w)
+            return
     if not ok_shape:
         L2 = _modulo_cycle(fv, rn)
         if L2 is None:
